@@ -138,6 +138,28 @@ Generated == {e \in Universe : Fold(e).t # "undef"}
 InRange == \A e \in Generated : LET v == Fold(e) IN
              (v.t = "int" => Abs(v.v) < Lim) /\ (v.t = "flt" => IsPow2(v.d) /\ Abs(v.n) < Lim)
 
+\* ---- references to other enum members.  Three enums; a member is referred to by its bare name inside its own enum
+\* (B = A + 1) and as E.X.value from elsewhere.  The members of E0 and E1 have the SAME NAMES and different values:
+\* what a reference denotes is decided by enum and name together, and by nothing the evaluator did before.
+EnumTable == [E0 |-> [A |-> [text |-> "1",                    val |-> IntV(1)],
+                      B |-> [text |-> "A + 1",                val |-> IntV(2)]],
+              E1 |-> [A |-> [text |-> "E0.B.value + 1",       val |-> IntV(3)],
+                      B |-> [text |-> "0x10 | E0.A.value",    val |-> IntV(17)]]]
+\* the table is consistent with the fold semantics (each member's value is what its defining expression denotes)
+RefLit(en, x) == Lit(en \o "." \o x \o ".value", EnumTable[en][x].val)
+TableConsistent ==
+  /\ EnumTable.E0.B.val = BinVal("+", EnumTable.E0.A.val, IntV(1))
+  /\ EnumTable.E1.A.val = BinVal("+", EnumTable.E0.B.val, IntV(1))
+  /\ EnumTable.E1.B.val = BinVal("|", IntV(16), EnumTable.E0.A.val)
+RefLeaves == {RefLit(en, x) : en \in {"E0", "E1"}, x \in {"A", "B"}}
+RefOps == {"+", "-", "*", "|", "<<", "/"}
+RefExprs == {[k |-> "bin", op |-> o, l |-> a, r |-> b] : o \in RefOps, a \in RefLeaves, b \in RefLeaves}
+             \cup {[k |-> "cast", fn |-> f, e |-> a] : f \in {"str", "float"}, a \in RefLeaves}
+             \cup {[k |-> "bin", op |-> o, l |-> [k |-> "bin", op |-> "+", l |-> a, r |-> b], r |-> Lit("2", IntV(2))] : o \in {"*", "<<"}, a \in RefLeaves, b \in RefLeaves}
+RefGenerated == {e \in RefExprs : Fold(e).t # "undef"}
+EmitRefs == \A e \in RefGenerated : PrintT("REFCASE " \o ToJson([text |-> Text(e), val |-> Fold(e)]))
+EmitEnums == PrintT("ENUMS " \o ToJson(EnumTable))
+
 Case(e) == [text |-> Text(e), val |-> Fold(e)]
 Emit == \A e \in Generated : PrintT("CASE " \o ToJson(Case(e)))
 =============================================================================
